@@ -24,37 +24,6 @@ KNOWN = os.path.join(VERIF, 'known_findings.jsonl')
 REPLAY_PY = os.environ.get('PYVC_REPLAY_PYTHON', '/venv/bin/python')
 
 
-def worker(job):
-    target, root = job
-    from . import verify
-    t0 = time.time()
-    r = verify.verify_target(target, [CONTRACT_DIR], None, root)
-    obs = []
-    for ob in r.obligations:
-        v = ob.verdict
-        d = {
-            'name': ob.name, 'kind': ob.kind, 'detail': ob.detail, 'backend': v.backend, 'seconds': round(v.seconds, 3),
-            'status': ('proved' if ob.proved else ('refuted' if ob.refuted else 'unknown')),
-            'reason': v.reason, 'path': getattr(ob, 'path', ''), 'known_id': getattr(ob, 'known_id', None),
-            'replay': getattr(ob, 'replay', None), 'expect_refuted': getattr(ob, 'expect_refuted', False),
-        }
-        if ob.refuted and not ob.want_sat and hasattr(r, 'engine'):
-            try:
-                d['counterexample'] = verify.describe_counterexample(r.engine, ob)
-            except Exception as e:  # noqa
-                d['counterexample'] = {'error': f'{type(e).__name__}: {e}'}
-            try:
-                d['model'] = str(v.model)[:4000]
-            except Exception:  # noqa
-                pass
-        obs.append(d)
-    return {
-        'target': target, 'status': r.status, 'message': r.message, 'paths': r.paths, 'seconds': round(time.time() - t0, 2),
-        'obligations': obs, 'assumptions': r.assumptions, 'abstractions': r.abstractions,
-        'contracts_used': r.contracts_used, 'tb': getattr(r, 'tb', ''),
-    }
-
-
 def load_known():
     res = []
     if os.path.exists(KNOWN):
@@ -122,8 +91,8 @@ def main(argv=None):
         if not targets and not pinfo.get('scans'):
             print(f'ERROR property={prop}: no units under contract')
             return 3
-        with mp.get_context('fork').Pool(a.jobs) as pool:
-            results = pool.map(worker, [(t, a.root) for t in targets], chunksize=1)
+        from . import verify
+        results = verify.run_units(targets, [CONTRACT_DIR], a.root, a.jobs)
         scan_results = []
         for scan in pinfo.get('scans', []):
             from . import scans
